@@ -28,6 +28,8 @@ pub struct ConcCfg {
     pub clock_small: bool,
     /// sampled I/O faults on library calls in a third of the runs
     pub sampled_faults: bool,
+    /// stale temp files (crash debris older than the age limit) are planted
+    pub debris: bool,
 }
 
 #[derive(Clone, Debug)]
@@ -139,6 +141,29 @@ pub fn run_conc(tape: &mut Tape, cfg: &ConcCfg, detail: bool) -> ConcRun {
             }
         }
     }
+    // crash debris older than the age limit, for concurrent maintainers to
+    // fight over
+    if cfg.debris && !missing && tape.draw(2) == 1 {
+        let mut tds: Vec<String> = Vec::new();
+        if writer_sharded {
+            for key in keys.iter() {
+                let (a, b) = ref_shards(key.hash, key.sec, nshards);
+                tds.push(format!("{}/{}/.kismet_temp", wroot, shard_dir_name(a)));
+                tds.push(format!("{}/{}/.kismet_temp", wroot, shard_dir_name(b)));
+            }
+        } else {
+            tds.push(format!("{}/.kismet_temp", wroot));
+        }
+        tds.sort();
+        tds.dedup();
+        for td in tds {
+            fs.mkdir_all(&td);
+            for i in 0..(1 + tape.draw(3)) {
+                let m = fs.now - 7_200_000_000_000 - (i as i64) * 1_000_000_000;
+                fs.plant_file(&format!("{}/.tmpSTALE{}", td, i), b"debris of a crashed writer", 0o600, m, m);
+            }
+        }
+    }
     // participants, processes, handles
     let nparts = 2 + tape.draw((cfg.max_parts - 1) as u64) as usize;
     let shared = cfg.allow_shared_handle && tape.draw(3) == 0;
@@ -212,7 +237,6 @@ pub fn run_conc(tape: &mut Tape, cfg: &ConcCfg, detail: bool) -> ConcRun {
         st.sched.stay = stay;
         st.sched.hold = hold;
         st.stale_mode = cfg.stale_mode && st.tape.draw(2) == 1;
-        st.short_io = if st.tape.draw(3) == 0 { 300 } else { 0 };
         if cfg.freeze {
             let at = 1 + st.tape.draw(120);
             let surv = st.tape.draw(nparts as u64) as usize;
